@@ -403,6 +403,11 @@ func runIncidents(c *run.Ctx, kinds []string) {
 		case "dial-fails-n-times":
 			set(func() { failDials = 1 + c.Rng.Intn(5) })
 			conn.EndInbound(-1, io.EOF)
+		case "dial-fails-for-long":
+			// enough failures in a row for the doubling of the backoff to leave
+			// any integer range, were it not bounded
+			set(func() { failDials = 50 + c.Rng.Intn(30) })
+			conn.EndInbound(-1, io.EOF)
 		case "client-identifier-load-fails":
 			set(func() { failLoadID = 1 + c.Rng.Intn(2) })
 			conn.EndInbound(-1, io.EOF)
@@ -601,6 +606,9 @@ func init() {
 			}
 			if c.Case < len(incidentKinds) {
 				kinds = []string{incidentKinds[c.Case]}
+			}
+			if c.Case%100 == 98 {
+				kinds = []string{"dial-fails-for-long"}
 			}
 			if c.Case%100 == 99 {
 				// the package's own Dialers on real loopback sockets
